@@ -138,7 +138,17 @@ UPreC(op, rf, rt, c, x) ==
       [] op = "ceil" -> CeilPreC(rf, rt, c, x)
       [] op = "round" -> RoundPreC(rf, rt, c, x)
       [] op = "conv" -> ConvAllowedC(rf, rt, x.d1) /\ CastPreC(rf, rt, c, x)
-UPre(op, i, j, rf, rt, c) == UPreC(op, rf, rt, c, UCtx(i, j, c))
+\* the same context, computing only the fields the precondition of (op, rt) reads (the judge evaluates one
+\* combination per event; Duration.tla shares one full context among all combinations of an input)
+UCtxFor(op, rt, i, j, c) ==
+    LET a == Num(i, j, c) d == Den(i, j) dw == WProd(d) rnd == op \in {"floor", "ceil", "round"} IN
+    [a |-> a, dw |-> dw,
+     t |-> IF rt = "f64" THEN WZero ELSE WTrunc(a, d),
+     f |-> IF op \in {"floor", "round"} /\ rt # "f64" THEN WFloor(a, d) ELSE WZero,
+     ce |-> IF op = "ceil" /\ rt # "f64" THEN WCeil(a, d) ELSE WZero,
+     dy |-> IF rt = "f64" THEN IsDyadic(a, d) ELSE FALSE,
+     apd |-> IF rnd THEN WAdd(a, dw) ELSE WZero, amd |-> IF rnd THEN WSub(a, dw) ELSE WZero, d1 |-> (d = <<>>)]
+UPre(op, i, j, rf, rt, c) == UPreC(op, rf, rt, c, UCtxFor(op, rt, i, j, c))
 
 \* declarative readings used as laws (Duration.tla) ------------------------------------------------
 \* t is the truncated / floor / ceiling quotient of a by D (D > 0 wide)
